@@ -22,6 +22,10 @@ pub struct TimeoutCase {
     /// 0 none; 1 the first ppoll is answered EINTR without executing; 2 the first ppoll really
     /// waits and is then answered EINTR (the kernel has written the remaining time back)
     pub eintr: u8,
+    /// for op 3: how the timed stream was obtained: 0 connect, 1 accept, 2 try_accept,
+    /// 3 accept_with_timeout
+    #[serde(default)]
+    pub origin: u8,
 }
 
 pub fn run_timeout(c: &TimeoutCase) -> CaseResult {
@@ -82,13 +86,84 @@ fn inner(c: &TimeoutCase) -> Result<CaseReport, Stop> {
         }
         _ => {
             opname = "TcpStream::read_with_timeout";
-            let (tiny, _peer) = establish(true, true, &dir)?;
-            let Tiny::T(mut s) = tiny else { unreachable!() };
+            // the stream under the timed read comes from each way the API hands out TCP streams
+            let (mut s, peer) = match c.origin {
+                0 => {
+                    let (tiny, peer) = establish(true, true, &dir)?;
+                    let Tiny::T(s) = tiny else { unreachable!() };
+                    (s, peer)
+                }
+                1 => {
+                    let (tiny, peer) = establish(true, false, &dir)?;
+                    let Tiny::T(s) = tiny else { unreachable!() };
+                    (s, peer)
+                }
+                o => {
+                    let mut b = bind_tiny(true, &dir)?;
+                    let peer = b.libc_connect()?;
+                    let TinyListener::T(l) = &mut b.l else { unreachable!() };
+                    // the connection is established by the time the libc connect returned
+                    let mut got = None;
+                    for _ in 0..200 {
+                        let r = if o == 2 {
+                            no_panic("TcpListener::try_accept", || l.try_accept())?.map_err(|e| unexpected("TcpListener::try_accept", &e, "pending connection"))?
+                        } else {
+                            Some(no_panic("TcpListener::accept_with_timeout", || l.accept_with_timeout(Duration::from_secs(5)))?.map_err(|e| unexpected("TcpListener::accept_with_timeout", &e, "pending connection"))?)
+                        };
+                        if let Some(s) = r {
+                            got = Some(s);
+                            break;
+                        }
+                        std::thread::sleep(Duration::from_millis(1));
+                    }
+                    let Some(s) = got else { return Err(Stop::Inconclusive("try_accept never saw the pending connection".into())) };
+                    (s, peer)
+                }
+            };
             let mut buf = [0u8; 64];
+            // watchdog: the peer is silent by construction, so a call that is still inside an
+            // untimed read(2) long after the limit can only be released by the peer: definitive
+            let tid = unsafe { libc::syscall(libc::SYS_gettid) } as i32;
+            let returned = std::sync::Arc::new(std::sync::atomic::AtomicBool::new(false));
+            let stuck = std::sync::Arc::new(std::sync::atomic::AtomicBool::new(false));
+            let (r2, s2, pfd) = (returned.clone(), stuck.clone(), peer.fd());
+            let limit = d;
+            let wd = std::thread::spawn(move || {
+                let deadline = Instant::now() + limit + Duration::from_millis(1500);
+                while Instant::now() < deadline {
+                    if r2.load(std::sync::atomic::Ordering::SeqCst) {
+                        return;
+                    }
+                    std::thread::sleep(Duration::from_millis(5));
+                }
+                for _ in 0..2 {
+                    if r2.load(std::sync::atomic::Ordering::SeqCst) {
+                        return;
+                    }
+                    let sc = std::fs::read_to_string(format!("/proc/self/task/{tid}/syscall")).unwrap_or_default();
+                    if !sc.starts_with("0 ") {
+                        return; // not parked in read(2): leave it to the outer time limit
+                    }
+                    std::thread::sleep(Duration::from_millis(200));
+                }
+                s2.store(true, std::sync::atomic::Ordering::SeqCst);
+                // release the call: the silent peer speaks
+                unsafe { libc::write(pfd, b"!".as_ptr().cast(), 1) };
+            });
             plan_eintr(c.eintr);
             let t0 = Instant::now();
             let r = no_panic(opname, || s.read_with_timeout(&mut buf, d).map(|_n| true));
             let el = t0.elapsed();
+            returned.store(true, std::sync::atomic::Ordering::SeqCst);
+            let _ = wd.join();
+            drop(peer);
+            if stuck.load(std::sync::atomic::Ordering::SeqCst) {
+                sc::verif::clear_plan();
+                return Err(stop_fail(
+                    format!("{opname}|never-timed-out|blocked in an untimed read(2)"),
+                    format!("{opname}({d:?}) on a stream obtained by {} was still parked in read(2) {:?} after the call, with a silent peer; it returned only when the harness made the peer write", ["connect", "accept", "try_accept", "accept_with_timeout"][c.origin.min(3) as usize], el),
+                ));
+            }
             (r?, el)
         }
     };
@@ -127,9 +202,12 @@ fn inner(c: &TimeoutCase) -> Result<CaseReport, Stop> {
     rep.class_if(c.eintr == 1 && served > 0, "eintr-before-wait");
     rep.class_if(c.eintr == 2 && served > 0, "eintr-after-wait");
     rep.class_if(c.micros < 2000, "limit<2ms");
+    if c.op == 3 {
+        rep.class(["read-on-connected-stream", "read-on-accepted-stream", "read-on-try-accepted-stream", "read-on-timed-accepted-stream"][c.origin.min(3) as usize]);
+    }
     Ok(rep)
 }
 
 pub fn timeout_strategy() -> impl Strategy<Value = TimeoutCase> {
-    (0u8..4, prop_oneof![3 => 1000u32..5000, 3 => 5000u32..20_000, 1 => 20_000u32..=80_000], 0u16..1000, prop_oneof![3 => Just(0u8), 1 => Just(1u8), 1 => Just(2u8)]).prop_map(|(op, micros, nanos, eintr)| TimeoutCase { op, micros, nanos, eintr })
+    (prop_oneof![1 => Just(0u8), 1 => Just(1u8), 1 => Just(2u8), 3 => Just(3u8)], prop_oneof![3 => 1000u32..5000, 3 => 5000u32..20_000, 1 => 20_000u32..=80_000], 0u16..1000, prop_oneof![3 => Just(0u8), 1 => Just(1u8), 1 => Just(2u8)], 0u8..4).prop_map(|(op, micros, nanos, eintr, origin)| TimeoutCase { op, micros, nanos, eintr, origin })
 }
